@@ -12,7 +12,7 @@
      wf_str s      := the dotted str s is carried faithfully: the labels qname_encode derives from it
                       (DNS-SD instance rule included) are label_wf and join back to s *)
 From Coq Require Import NArith List Bool Arith.
-From PV Require Import Common.Cases Common.Endian C04.DnsSpec C04.DnsModel C04.DnsProofs C04.DnsProofsMsg C04.DnsProofsPack.
+From PV Require Import Common.Cases Common.Endian C04.DnsSpec C04.DnsModel C04.DnsProofs C04.DnsProofsMsg C04.DnsProofsPack C04.DnsProofsBound.
 Import ListNotations.
 Local Open Scope N_scope.
 
@@ -178,6 +178,16 @@ Theorem C05_dns_unpack_never_out_of_fuel : forall buf, unpack_msg buf <> DOutOfF
 Proof. exact unpack_no_oof. Qed.
 Print Assumptions C05_dns_unpack_never_out_of_fuel.
 
+(* progress: each decoded question took at least 5 bytes of the message, each record at least 11,
+   and the stream never ran past the end - so however large the counts in a hostile header are
+   (up to 65535 each), the section loops of unpack make at most len/5 successful iterations, each
+   of which parses names within (len+1)^2 steps: a cubic bound for the whole message *)
+Theorem C05_dns_unpack_progress : forall buf id fl qs an ns ar,
+  unpack_msg buf = DOk (M id fl qs an ns ar) ->
+  (12 + 5 * length qs + 11 * (length an + length ns + length ar) <= length buf)%nat.
+Proof. exact unpack_size. Qed.
+Print Assumptions C05_dns_unpack_progress.
+
 (* ---- non-vacuity and regression witnesses --------------------------------------------------- *)
 
 (* the pre-fix hang witness: 12 zero bytes + c0 0c, parsed at offset 12 *)
@@ -232,4 +242,22 @@ Proof.
   constructor; [|constructor]. unfold wf_q.
   split; [|split; reflexivity].
   apply wf_strb_sound. vm_compute. reflexivity.
+Qed.
+
+(* DNS-SD names are carried faithfully too, including an instance label that contains a dot:
+   "My.TV._airplay._tcp.local" goes on the wire as the labels "My.TV", "_airplay", "_tcp", "local" *)
+Definition ex_instance : list N := [77; 121; 46; 84; 86; 46] ++ join_dot [ex_airplay; ex_tcp; ex_local].
+Example C04_dns_ex_instance_wf : wf_str ex_instance.
+Proof. apply wf_strb_sound. vm_compute. reflexivity. Qed.
+Example C04_dns_ex_instance_labels :
+  wire_labels ex_instance = [[77; 121; 46; 84; 86]; ex_airplay; ex_tcp; ex_local].
+Proof. vm_compute. reflexivity. Qed.
+
+(* a TXT record as an Apple TV announces it: "deviceid=AA" and the bare flag "pw" *)
+Example C04_dns_ex_txt :
+  txt_ok [([100; 101; 118; 105; 99; 101; 105; 100], Some [65; 65]); ([80; 119], None)].
+Proof.
+  split.
+  - repeat constructor; cbn; try discriminate; try Lia.lia.
+  - repeat constructor; cbn; intuition discriminate.
 Qed.
